@@ -156,6 +156,7 @@ class C19(engine.Property):
         "laws-constructed-positionally",
         "construction-fed-by-failing-iterable",
         "whitelist-preset-dict-reused",
+        "laws-assigned-during-construction-through-attributes",
         "assignment-through-item-syntax",
     ]
 
@@ -270,7 +271,10 @@ class C19(engine.Property):
                     op["via"] = "item"
                 return op
             if kind == "mk_universe" and len(us) < cfg["max_u"]:
-                return {"op": "mk_universe", "new": st.namer.new("u"), "cls": rng.choice(cfg["universe_classes"])}
+                op = {"op": "mk_universe", "new": st.namer.new("u"), "cls": rng.choice(cfg["universe_classes"])}
+                if ls and rng.random() < 0.15:
+                    op["attr_laws"] = rng.choice(ls)
+                return op
             if kind == "mk_universe_laws" and len(us) < cfg["max_u"] and ls:
                 op = {
                     "op": "mk_universe",
@@ -389,6 +393,21 @@ class C19(engine.Property):
             # an ill-typed value: whether and how the call fails is not the
             # property's business; the bijection over everything known is
             k = "bad-assignment"
+        elif op.get("attr_laws") is not None:
+            # `laws` assigned through attributes= while the universe is being
+            # built: the library may refuse that or honour it -- either way the
+            # bijection below must hold over everything reachable afterwards
+            st.stats["probe:laws-assigned-during-construction-through-attributes"] += 1
+            k = "construction-with-laws-attribute"
+            if "exc" not in out and snap[op["new"]]["laws"] != op["attr_laws"]:
+                # accepted, yet the universe ended up with other laws: then the
+                # law set must not have been touched at all
+                if snap.get(op["attr_laws"]) != before.get(op["attr_laws"]):
+                    return out, engine.viol(
+                        "C19/laws-attribute-half-honoured",
+                        {"op": op, "laws_of_new_universe": snap[op["new"]]["laws"],
+                         "law_set_now": snap.get(op["attr_laws"]), "law_set_before": before.get(op["attr_laws"])},
+                    )
         if k in ("set_laws", "set_applies", "mk_universe", "mk_laws"):
             if "exc" in out:
                 return out, engine.viol(
